@@ -145,7 +145,9 @@ func (o OneOfSchema[KeyType]) UnserializeType(data any) (result any, err error) 
 	}
 	unserializedMap, ok := unserializedData.(map[string]any)
 	if ok {
-		unserializedMap[o.DiscriminatorFieldNameValue] = discriminator
+		// Attach the discriminator in its unserialized type, not as received: after CBOR transport an integer
+		// discriminator arrives as uint64, which this schema's own Validate and Serialize do not accept.
+		unserializedMap[o.DiscriminatorFieldNameValue] = typedDiscriminator
 		return unserializedMap, nil
 	}
 	return saveConvertTo(unserializedData, o.ReflectedType())
